@@ -1,6 +1,9 @@
 """C08 - sorted-set kernels compute exact set algebra (DESIGN.md section 3, C08)."""
+import os
+
+from .. import fuzzrun
 from .. import kernels as K
-from ..core import Sub
+from ..core import VERIF, Sub
 
 PROPERTY = "C08"
 LEVEL = "exploration"
@@ -12,7 +15,10 @@ RULE = (
     "gap-encoded strictly increasing uint32 arrays with an explicit overlap pattern, memory layout (contiguous, "
     "strided, offset view, read-only), None operands and copy flags. Oracle: Python set algebra, sorted. "
     "Non-trivial pair = both operands non-empty with overlapping value ranges (the merge loop, not a shortcut, "
-    "produced the result); non-trivial multi-way case = at least two non-empty arrays sharing a value; "
+    "produced the result); fuzz: an Atheris / libFuzzer campaign (coverage-guided through the instrumented ASan build "
+    "of the kernels; bytes decoded into gap-encoded arrays, layouts, None operands, k-way lists; oracle inside the "
+    "target; half the shards start from an empty corpus, half from 4 small valid inputs; 4 000 executions per shard "
+    "quick, 1.5 million thorough); non-trivial multi-way case = at least two non-empty arrays sharing a value; "
     "wrapper case = one with a None operand or an empty result. Distinct by operand contents."
 )
 ASSUMPTIONS = [
@@ -47,6 +53,21 @@ def L(tier):
     return 300 if tier == "quick" else 600
 
 
+def fuzz_runner(sub, tier, seed, shard, nshards, rec):
+    fuzzrun.run_campaign(sub, tier, seed, shard, nshards, rec,
+                         os.path.join(VERIF, "vfw", "fuzz", "kernels_fuzz.py"),
+                         {"quick": 4000, "thorough": 1500000}, asan=True, seed_corpus=kernel_seeds,
+                         asan_abort_is_violation=False, mode="c08")
+
+
+def kernel_seeds(corpus):
+    # a few small valid inputs in the target's byte encoding (ints are consumed from the END of the buffer)
+    for i, b in enumerate([bytes([3, 1, 2, 1, 1, 3, 1, 2, 0, 0]), bytes([1, 1, 1, 1, 4, 2, 2, 2, 2, 4, 0, 1, 5]),
+                           bytes([0] * 8 + [3, 3, 3, 4, 9]), bytes([2, 2, 5, 1, 7])]):
+        with open(os.path.join(corpus, "seed%d" % i), "wb") as f:
+            f.write(b)
+
+
 SUBS = [
     Sub("pairs_exh", check_c08_enum, enumerate=enum_pairs, exhaustive=True, marker=True, weight=5),
     Sub("many_exh", check_c08_enum, enumerate=enum_many, exhaustive=True, marker=True, weight=3,
@@ -57,4 +78,6 @@ SUBS = [
         examples={"quick": 6000, "thorough": 200000}, shards={"quick": 8, "thorough": 16}),
     Sub("many_hyp", check_c08, strategy=lambda tier: K.many_cases(60), marker=True,
         examples={"quick": 6000, "thorough": 200000}, shards={"quick": 8, "thorough": 16}),
+    Sub("fuzz", check_c08, runner=fuzz_runner, variant="plain", shards={"quick": 2, "thorough": 8},
+        rlimit_gb=0, weight=9),
 ]
